@@ -2,3 +2,9 @@
 reg("C40", "exploration", "proptest generated value triples, equivalence + hash-consistency oracle",
     "Random search over nested runtime values (all variants, NaN/-0.0, permuted maps, forced equal-but-not-identical pairs) checking reflexivity, symmetry, transitivity and eq=>hash-eq under SipHash and FxHasher. Sampling, not proof: the space of values is infinite, the laws are cheap so 40k/1M triples are judged.",
     "Trusts std/rustc-hash hashers as representative of hash-map use; depth<=3.")
+reg("C06", "exploration", "proptest stateful histories vs set-of-sets reference model + exhaustive pair enumeration",
+    "Lock-step model-based testing: every generated operation history runs in the explicit BTreeSet<BTreeSet<u32>> model, the standalone Zdd, ZddArena and SharedArena, and count/contains(all 32 subsets)/iter/to_sets are compared after each op, including after arena gc. Plus a complete enumeration of all 65536 ordered family pairs over 3 variables for the binary ops. Universe of 5 variables: random part is sampling, the 3-variable block is exhaustive.",
+    "Trusts std BTreeSet algebra as the reference; universe limited to 5 (random) / 3 (exhaustive) variables.")
+reg("C07", "exploration", "proptest stateful histories with canonicity/reducedness/gc invariants (hook H1 node dump)",
+    "Generated histories build the same family by different routes in one arena, interleaved with gc keeping random handle subsets; after every op: same family <=> same root for all live handle pairs (both directions), all stored nodes reduced and strictly ordered, gc'd handles denote their pre-gc family, iteration yields each member once ascending. Sampling over histories of <=40 ops.",
+    "Trusts hook H1 dump and the reference family computed by the harness; 5 variables.")
